@@ -525,6 +525,23 @@ func main() {
 		}
 		fmt.Printf("Definition %s : list stm :=\n  %s.\n\n", ident(name), body)
 	}
+	// call cones (cones.go): which functions of the library each of these functions can reach
+	cones, cerr := callCones(root)
+	// roots of properties whose models are pure functions compared by T2 (no skeleton): cone only
+	coneRoots := append(append([]string{}, want...), "Task.TempDir", "Task.formatCommand", "applyPathModifiers", "Process.initPortsFromCmdPattern", "Process.initDefaultPathFuncs")
+	for _, name := range coneRoots {
+		l := []string{}
+		if cones == nil {
+			l = append(l, q("<cone not computed: "+cerr+">"))
+		} else if c, ok := cones[name]; ok {
+			for _, m := range c {
+				l = append(l, q(m))
+			}
+		} else {
+			l = append(l, q("<function not found>"))
+		}
+		fmt.Printf("Definition cone_%s : list string :=\n  [%s].\n\n", strings.NewReplacer(".", "_").Replace(name), strings.Join(l, "; "))
+	}
 }
 
 func litValue(bl *ast.BasicLit) string {
